@@ -213,6 +213,22 @@ pub fn run_history(line: &str) -> String {
                     }
                 }
             }
+            "serjson" => match h.session() {
+                None => "nosession".into(),
+                Some(s) => serde_json::to_string(s).unwrap(),
+            },
+            "dejson" => {
+                // install a session from a given (possibly malformed) document; the document is hex-encoded UTF-8
+                let text = String::from_utf8_lossy(&unhex(a[1])).to_string();
+                match serde_json::from_str::<lorawan_device::mac::Session>(&text) {
+                    Ok(s2) => {
+                        let back = serde_json::to_string(&s2).unwrap();
+                        h.set_session(s2);
+                        format!("accepted {back}")
+                    }
+                    Err(_) => "rejected".into(),
+                }
+            }
             "patch" => {
                 // patch up=<n> down=<n|none> adrcnt=<n> : rewrite counters of the session through its serialized form
                 match h.session() {
